@@ -171,7 +171,7 @@ def alphabet(la, lb):
                 ['slice', 'b', lb - 12, lb, 3], ['idx', 'b', 3], ['newgen', 'a'], ['next', 'g', 0]]
     ops = [['idx', 'a', 0], ['idx', 'a', 1], ['idx', 'a', min(la - 1, 2 + la // 2)], ['idx', 'a', la - 1],
            ['idx', 'a', -1], ['idx', 'a', -3], ['idx', 'b', 0], ['idx', 'b', lb - 1], ['idx', 'b', -2],
-           ['slice', 'a', 1, min(5, la), None], ['slice', 'b', 2, min(7, lb), 2],
+           ['slice', 'a', 1, min(5, la), None], ['slice', 'b', 2, min(7, lb), 2], ['slice', 'a', 0, 2, None],
            ['read', 'a', min(3, la - 1), 2], ['read', 'b', 0, None], ['idx', 'a', la + 5],   # the last one raises IndexError
 
            ['newgen', 'a'], ['newgen', 'b'], ['newfilegen'],
